@@ -206,6 +206,29 @@ def run(ctx):
            if (isinstance(n, ast.Call) and (call_name(n) or "").endswith(".stop")) or isinstance(n, ast.Delete)]
     ctx.check(seq == ["stop", "del"], "R09.5", "global_ctx.py::GlobalContextMgr.delete", "delete stops the context before forgetting it",
               msg=f"GlobalContextMgr.delete performs {seq}: the context must be stopped before it is removed from the table", key="delete order", node=f, rel="global_ctx.py")
+    load_file_rule(ctx, program, "R09.5")
+    # module_import: failing module load stops the module context
+    uid = "global_ctx.py::GlobalContext.module_import"
+    f = program.func(uid)
+    ok = any(isinstance(t, ast.Try) and any(any((call_name(m) or "") == "global_ctx.stop" for m in ast.walk(h) if isinstance(m, ast.Call)) and
+             any(isinstance(m, ast.Raise) for m in ast.walk(h)) for h in t.handlers) for t in body_walk(f))
+    ctx.check(ok, "R09.5", uid, "failed module import stops the module context and re-raises", msg="module_import no longer stops the module context when its load fails",
+              key="module_import failure", node=f, rel="global_ctx.py")
+    # unload_scripts stops then deletes
+    f = program.func("__init__.py::unload_scripts")
+    names = [call_name(n) for n in body_walk(f) if isinstance(n, ast.Call)]
+    ctx.check("global_ctx.stop" in names and "GlobalContextMgr.delete" in names and "Function.waiter_sync" in names, "R09.5", "__init__.py::unload_scripts",
+              "unload stops, deletes and waits for shutdown triggers", msg=f"unload_scripts calls {names}", key="unload_scripts sequence", node=f, rel="__init__.py")
+    return (
+        "Static, source-only: acquire kinds (subscriptions, listener handles, webhook/service registrations, background tasks) found in each owner's start "
+        "path are matched against the release kinds of its stop path (table of 11 owners); release loops are checked for early exits; handle def-use; "
+        "finalizer closure free variables; ordered events in load_file (flow analysis with exceptional exits).  Not decided: when references die (GC), "
+        "container-held closures."
+    )
+
+
+def load_file_rule(ctx, program, rid):
+    """load_file: old context removed before the new source runs; failed load stops the context; registered only after success."""
     # load_file: old context stopped+deleted before parse; new context stopped on failure
     uid = "global_ctx.py::GlobalContextMgr.load_file"
     f = program.func(uid)
@@ -229,32 +252,14 @@ def run(ctx):
             bad_reg = desc
         if kind == "return" and "ast_ctx.eval" in evs and "cls.set" not in evs:
             bad_reg = "successful load not registered"
-    ctx.check(bad_order is None, uid and "R09.5", uid, "previous context of the same name stopped/deleted before the new source runs",
+    ctx.check(bad_order is None, rid, uid, "previous context of the same name stopped/deleted before the new source runs",
               msg=f"load_file: on [{bad_order}] the new source is parsed/evaluated while the old context of the same name is still registered and running",
               key="old context removed before parse", node=f, rel="global_ctx.py", sample={"exits": n})
-    ctx.check(bad_fail is None, "R09.5", uid, "a context whose load fails is stopped",
+    ctx.check(bad_fail is None, rid, uid, "a context whose load fails is stopped",
               msg=f"load_file: on [{bad_fail}] the partially loaded context is not stopped: whatever it registered while evaluating stays active",
               key="failed load stops context", node=f, rel="global_ctx.py")
-    ctx.check(bad_reg is None, "R09.5", uid, "a context is registered exactly when its source evaluated without exception",
+    ctx.check(bad_reg is None, rid, uid, "a context is registered exactly when its source evaluated without exception",
               msg=f"load_file: {bad_reg}", key="register only after success", node=f, rel="global_ctx.py")
-    # module_import: failing module load stops the module context
-    uid = "global_ctx.py::GlobalContext.module_import"
-    f = program.func(uid)
-    ok = any(isinstance(t, ast.Try) and any(any((call_name(m) or "") == "global_ctx.stop" for m in ast.walk(h) if isinstance(m, ast.Call)) and
-             any(isinstance(m, ast.Raise) for m in ast.walk(h)) for h in t.handlers) for t in body_walk(f))
-    ctx.check(ok, "R09.5", uid, "failed module import stops the module context and re-raises", msg="module_import no longer stops the module context when its load fails",
-              key="module_import failure", node=f, rel="global_ctx.py")
-    # unload_scripts stops then deletes
-    f = program.func("__init__.py::unload_scripts")
-    names = [call_name(n) for n in body_walk(f) if isinstance(n, ast.Call)]
-    ctx.check("global_ctx.stop" in names and "GlobalContextMgr.delete" in names and "Function.waiter_sync" in names, "R09.5", "__init__.py::unload_scripts",
-              "unload stops, deletes and waits for shutdown triggers", msg=f"unload_scripts calls {names}", key="unload_scripts sequence", node=f, rel="__init__.py")
-    return (
-        "Static, source-only: acquire kinds (subscriptions, listener handles, webhook/service registrations, background tasks) found in each owner's start "
-        "path are matched against the release kinds of its stop path (table of 11 owners); release loops are checked for early exits; handle def-use; "
-        "finalizer closure free variables; ordered events in load_file (flow analysis with exceptional exits).  Not decided: when references die (GC), "
-        "container-held closures."
-    )
 
 
 def _same_slot(a, b):
